@@ -209,7 +209,7 @@ impl SvgElement {
 //@ replace[R-strmatch-tuple] <<<let inscribed = match (target_shape, self.name.as_str()) {>>> => <<<let m_ = (target_shape, self.name.as_str());\n        let inscribed =>>>
 //@ replace[R-strmatch-tuple] <<<            // rect inside circle\n            ("rect", "circle") => {>>> => <<<            if m_.0 == "rect" && m_.1 == "circle" {>>>
 //@ replace[R-strmatch-tuple] <<<            }\n            // rect inside ellipse\n            ("rect", "ellipse") => {>>> => <<<            } else if m_.0 == "rect" && m_.1 == "ellipse" {>>>
-//@ replace[R-strmatch-tuple] <<<            }\n            // Trivial cases: same shape\n            _ => return self.bbox(),\n        };>>> => <<<            } else { return self.bbox(); };>>>
+//@ replace-re[R-strmatch-tuple] <<<\}\n\s*// Trivial cases: same shape\n\s*_ => ([^\n]*?),\n\s*\};>>> => <<<} else { \1 };>>>
 //@ replace[R-parse] <<<let transform: TransformAttr = transform.parse()?;>>> => <<<let transform: TransformAttr = parse_transform(&transform)?;>>>
 //@ body-start
 //@ | proof { ax_sqrt2(); }
